@@ -6,10 +6,13 @@ CONSTANTS
   Ops1 = {"trunc", "set", "dup", "drop", "splice", "nest", "field", "tlv", "random"}
   Ops2 = {"trunc", "drop", "tlv"}
   NestDepths = {1, 2}
+  SpliceWindow = 8
+  StructAllSeeds = FALSE
   SpliceOther = TRUE
   RandLens = {0, 1, 7}
   NRand = 2
   NodeIdx = {0, 3}
+  ByteOpsAllSeeds = FALSE
   PanicOnForbidden = FALSE
 VIEW McView
 INVARIANTS Total WellFormed Bounded
